@@ -732,6 +732,45 @@ def s_guarded_rules(b: MB):
     b.tag("guarded_" + kind)
 
 
+def s_shared_folded_shape(b: MB):
+    """A target shape with a -1 entry that is (1) computed by a foldable chain, so the folder turns it into an initializer
+    during the same optimize() call, (2) consumed by a Reshape-of-Reshape (a rule may specialise its entries) and (3) by a
+    Reshape of a tensor of another size: the shared constant must not be written in place."""
+    x = b.pick(lambda u: dyn_f(u) and u.static() and len(u.shape) == 2 and u.numel() > 0)
+    if x is None:
+        return
+    n, m = x.shape
+    c1, c2 = b.const(np.array([-1], dtype=np.int64)), b.const(np.array([m], dtype=np.int64))
+    s = b.node("Concat", [c1, c2], TP.INT64, [2], axis=0)
+    sa = b.const(np.array([n * m], dtype=np.int64))
+    r1 = b.node("Reshape", [x, sa], TP.FLOAT, [n * m], const=False)
+    b.node("Reshape", [r1, s], TP.FLOAT, [n, m], const=False)
+    z = b.node("Concat", [x, x], TP.FLOAT, [2 * n, m], axis=0, const=False)
+    b.node("Reshape", [z, s], TP.FLOAT, [2 * n, m], const=False)
+    b.tag("shared_folded_shape")
+
+
+def s_expand_lower_rank(b: MB):
+    """Expand with a constant target of LOWER rank than the input: broadcasting aligns on the right, so x:[k,1] with target
+    [k] yields [k,k] (a target that matches the input's LEADING dims is not a no-op)."""
+    x = b.pick(lambda u: dyn_f(u) and u.static() and len(u.shape) == 2 and 0 < u.numel() <= 12)
+    if x is None:
+        return
+    n, m = x.shape
+    k = n * m
+    r = b.node("Reshape", [x, b.const(np.array([k, 1], dtype=np.int64))], TP.FLOAT, [k, 1], const=False)
+    kind = b.rng.choice(["lead", "lead", "one", "trail"])
+    if kind == "lead":      # target equals the leading dim: the true result is [k, k]
+        tgt, oshape = [k], [k, k]
+    elif kind == "one":     # a real no-op
+        tgt, oshape = [1], [k, 1]
+    else:                   # three-dimensional input, two-dimensional target matching the leading dims
+        r = b.node("Reshape", [x, b.const(np.array([k, 1, 1], dtype=np.int64))], TP.FLOAT, [k, 1, 1], const=False)
+        tgt, oshape = [k, 1], [k, k, 1]
+    b.node("Expand", [r, b.const(np.array(tgt, dtype=np.int64))], TP.FLOAT, oshape, const=False)
+    b.tag("expand_lower_rank_" + kind)
+
+
 def s_const_nodes(b: MB):
     r = b.rng.random()
     if r < 0.3:
@@ -756,7 +795,7 @@ def s_const_nodes(b: MB):
 SNIPPETS = [
     (s_elementwise, 5), (s_const_arith, 4), (s_transpose_const, 2), (s_cast, 4), (s_shape_chain, 6),
     (s_reshape_const, 3), (s_concat_zero, 2), (s_dropout, 3), (s_identity, 3), (s_sequence, 3),
-    (s_if, 4), (s_gates, 2), (s_init_input, 2), (s_const_nodes, 2), (s_loop_scan, 2), (s_guarded_rules, 1),
+    (s_if, 4), (s_gates, 2), (s_init_input, 2), (s_const_nodes, 2), (s_loop_scan, 2), (s_guarded_rules, 1), (s_shared_folded_shape, 1), (s_expand_lower_rank, 1),
 ]
 
 
